@@ -16,6 +16,8 @@ package message
 
 import (
 	"bytes"
+	"errors"
+	"math"
 	"reflect"
 	"sync"
 
@@ -28,6 +30,9 @@ var encoders = &sync.Pool{New: func() interface{} {
 		bytes.NewBuffer(make([]byte, 0, 8*1024)),
 	)
 }}
+
+// errInvalidLength is returned when a field of an encoded message announces an impossible length.
+var errInvalidLength = errors.New("message: invalid field length")
 
 type messageCodec struct{}
 
@@ -68,6 +73,10 @@ func (c *messageCodec) DecodeTo(d *binary.Decoder, rv reflect.Value) (err error)
 func readBytes(d *binary.Decoder) (buffer []byte, err error) {
 	var l uint64
 	if l, err = d.ReadUvarint(); err == nil && l > 0 {
+		if l > math.MaxInt32 {
+			return nil, errInvalidLength // Would be negative as an int
+		}
+
 		buffer, err = d.Slice(int(l))
 	}
 	return
